@@ -5,6 +5,7 @@ byte-level models (`writeNpy`, `readNpy`, `writeText`, `readText`, `readSpectrum
 against bytes, bit patterns against bit patterns.
 -/
 import SfsModel.Driver.Proto
+import SfsModel.Model.Stdout
 import SfsModel.Driver.Create
 import SfsModel.Model.Text
 import SfsModel.Model.IoModel
@@ -147,18 +148,42 @@ def handleIo (op : String) (a : List String) (impl : String) : Option Verdict :=
     -- the very first write fails (closed pipe): `Wr` with `failAt = some 0`; the failure must surface as a non-zero exit status
     if impl.startsWith "ERR|" && !(impl.startsWith "ERR|0") then some (.ok s!"epipe-{cmd}-error") else some (.bad "ERR|<non-zero> (the write failure must surface)")
   | "io.fsize", [fmt, pr, sh, bs, lim] => do
-    -- stdout accepts `lim` bytes and then fails: `Wr` with `failAt = some lim` (C18.write_failure_surfaces_*): the run succeeds with the
-    -- complete output when it fits, and ends with a non-zero status otherwise
+    -- stdout accepts `lim` bytes and then fails: the stdout model (`Model/Stdout.lean`: the writer's pieces through the line writer,
+    -- then the flush) over a descriptor with `failAt = some lim` (C18.stdout_delivers / stdout_failure_surfaces): the run succeeds
+    -- with the complete output when it fits, and ends with a non-zero status otherwise
     let p ← pr.toNat?; let shape ← parseNats sh; let bits ← parsePatterns bs; let l ← lim.toNat?
     if impl == "NO-PYTHON" then pure (.ok "fsize-unavailable") else
-    let fileE := if fmt == "npy" then writeNpy shape bits else .ok (asciiBytes (writeText shape bits p))
-    match fileE with
-    | .error _ => pure (.bad "model: cannot write")
-    | .ok file =>
-      if file.length ≤ l then pure (cmpStr impl s!"OK|0|{showHexBytes file}" s!"fsize-{fmt}-fits")
-      else if impl.startsWith "ERR|" && !(impl.startsWith "ERR|0|") then
-        pure (.ok s!"fsize-{fmt}-{if l < 128 then "cut-early" else if l + 24 < file.length then "cut-middle" else "cut-tail"}")
-      else pure (.bad "ERR|<non-zero>|… (the output does not fit: the write failure must surface)")
+    match (if fmt == "npy" then npyPieces shape bits else some (textPieces shape bits p)) with
+    | none => pure (.bad "model: cannot write")
+    | some pieces =>
+      let total := pieces.flatten.length
+      match stdoutWrite pieces { failAt := some l } with
+      | .ok w => pure (cmpStr impl s!"OK|0|{showHexBytes w.out}" s!"fsize-{fmt}-fits")
+      | .error _ =>
+        if impl.startsWith "ERR|" && !(impl.startsWith "ERR|0|") then
+          pure (.ok s!"fsize-{fmt}-{if l < 128 then "cut-early" else if l + 24 < total then "cut-middle" else "cut-tail"}")
+        else pure (.bad "ERR|<non-zero>|… (the output does not fit: the write failure must surface)")
+  | "io.fsizeo", [cmd, fmt, pr, sh, bs, lim] => do
+    -- `-o PATH` on a file that accepts `lim` bytes: the writer model over `Wr` with `failAt = some lim` (write_failure_surfaces_*): with
+    -- room for everything the file holds exactly the output and the run succeeds; otherwise the run fails (nothing on stdout either way)
+    let p ← pr.toNat?; let shape ← parseNats sh; let bits ← parsePatterns bs; let l ← lim.toNat?
+    if impl == "NO-PYTHON" then pure (.ok "fsizeo-unavailable") else
+    let outBits : List Nat := if cmd == "fold" then (foldSpectrum (XR.fin (1/2)) (.fin 0) shape (bits.map f64OfBits)).map (fun _ => 0) else bits
+    let r := if fmt == "npy" then writeNpyWr shape bits { failAt := some l } else writeTextWr shape bits p { failAt := some l }
+    match impl.splitOn "|" with
+    | [cls, code, _file, so] =>
+      if so != "-" then pure (.bad "nothing on stdout when -o is given") else
+      if cmd == "fold" then
+        -- the folded values are not recomputed here: only the verdict (room or not) is decided, by the length of the model's text
+        let _ := outBits
+        match r with
+        | .ok _ => pure (if cls == "OK" && code == "0" then .ok "fsizeo-fold-fits" else .bad "OK|0")
+        | .error _ => pure (if cls == "ERR" && code != "0" then .ok "fsizeo-fold-cut" else .bad "ERR|<non-zero> (the write failure must surface)")
+      else
+      match r with
+      | .ok w => pure (cmpStr impl s!"OK|0|{showHexBytes w.out}|-" s!"fsizeo-{fmt}-fits")
+      | .error _ => pure (if cls == "ERR" && code != "0" then .ok s!"fsizeo-{fmt}-cut" else .bad "ERR|<non-zero> (the write failure must surface)")
+    | _ => none
   | "io.overwrite", [fmt, pr, _sh1, _bs1, sh2, bs2] => do
     let p ← pr.toNat?; let shape ← parseNats sh2; let bits ← parsePatterns bs2
     let fileE := if fmt == "npy" then writeNpy shape bits else .ok (asciiBytes (writeText shape bits p))
